@@ -568,6 +568,8 @@ func (c *Client) AllocateTCP() (*client.TCPAllocation, error) {
 		Lifetime:    lifetime.Duration,
 		Net:         c.net,
 		Log:         c.log,
+
+		PermissionRefreshInterval: c.permissionRefreshInterval,
 	})
 
 	c.setTCPAllocation(allocation)
